@@ -63,6 +63,13 @@ def handle (st : State) (args : List String) : State × String :=
        | some b => ({ book := b }, "ok")
        | none => (st, "nosheet"))
     | _, _, _, _ => (st, "bad-op")
+  | ["del", s, r, c] =>
+    match s.toNat?, r.toNat?, c.toNat? with
+    | some s, some r, some c =>
+      (match st.book.delCell s r c with
+       | some b => ({ book := b }, "ok")
+       | none => (st, "nosheet"))
+    | _, _, _ => (st, "bad-op")
   | [op, enc, trim, wrap, flag] =>
     if op = "csv" ∨ op = "csvfile" then
       match parseEnc enc, decodeStr wrap with
